@@ -1403,6 +1403,10 @@ where
                         }
                     };
 
+                    // whether the transport still holds output it has accepted but not sent
+                    // (a buffering transport such as TLS can leave `poll_flush` pending)
+                    let mut flush_pending;
+
                     loop {
                         // poll response to populate write buffer
                         // drain indicates whether write buffer should be emptied before next run
@@ -1443,6 +1447,7 @@ where
                         // TODO: want to find a reference for this behavior
                         // see introduced commit: 3872d3ba
                         let flush_was_ready = inner.as_mut().poll_flush(cx)?.is_ready();
+                        flush_pending = !flush_was_ready;
 
                         // this assert seems to always be true but not willing to commit to it until
                         // we understand what Nikolay meant when writing the above comment
@@ -1478,6 +1483,21 @@ where
 
                     // keep-alive and stream errors
                     if state_is_none && inner_p.write_buf.is_empty() {
+                        if flush_pending
+                            && inner_p.error.is_some()
+                            && inner_p.config.client_disconnect_deadline().is_some()
+                        {
+                            // a buffering transport still holds output, such as the error
+                            // response to the request that failed: end through the regular
+                            // shutdown, which flushes first and is bounded by the disconnect
+                            // timeout, instead of dropping the connection right away
+                            if let Some(err) = inner_p.error.take() {
+                                error!("stream error: {}", &err);
+                            }
+                            inner_p.flags.insert(Flags::SHUTDOWN);
+                            return self.poll(cx);
+                        }
+
                         if let Some(err) = inner_p.error.take() {
                             error!("stream error: {}", &err);
                             return Poll::Ready(Err(err));
